@@ -15,9 +15,9 @@ var verifIPs = []string{"10.0.0.1", "10.0.0.2", "fd00::1", "fd00::2", "not-an-ip
 
 func verifIsV4(s string) (valid, v4 bool) {
 	switch s {
-	case "10.0.0.1", "10.0.0.2":
+	case "10.0.0.1", "10.0.0.2", "10.0.9.1", "10.0.9.2":
 		return true, true
-	case "fd00::1", "fd00::2":
+	case "fd00::1", "fd00::2", "fd09::1", "fd09::2":
 		return true, false
 	}
 	return false, false
@@ -69,7 +69,17 @@ func verif_harness_C18_first_of_each_family() {
 // model does not block; the assertions do not depend on the schedule).
 //
 //verif:harness param.n=1..3 thorough.param.n=1..3 unwind=32 replay=none
-func verif_harness_C18_dns_caching_dial() {
+func verif_harness_C18_dns_caching_dial() { verifDNSCachingDial(false) }
+
+// C18 (2b) — the same with a refresh of the record set between two dials, as a
+// TTL expiry gives: the resolver then returns another slice of the same length
+// with other addresses (same families). Every dial after the refresh goes to an
+// address of the current record set, none to a retired one.
+//
+//verif:harness param.n=1..3 unwind=32 replay=none
+func verif_harness_C18_dns_refreshed_record_set() { verifDNSCachingDial(true) }
+
+func verifDNSCachingDial(refresh bool) {
 	n := verif_param("n")
 	dials := 2
 	if verif_thorough() {
@@ -90,6 +100,8 @@ func verif_harness_C18_dns_caching_dial() {
 		verif_stub("time.Now", func() time.Time { return time.Unix(0, 1) })
 		verif_stub("math/rand.NewSource", func(seed int64) rand.Source { return nil })
 		verif_stub("math/rand.New", func(src rand.Source) *rand.Rand { return &rand.Rand{} })
+		// any other way of drawing from the generator: every value in range
+		verif_stub("(*math/rand.Rand).Intn", func(r *rand.Rand, n int) int { return verif_choose("rand_intn", n) })
 		verif_stub("(*math/rand.Rand).Shuffle", func(r *rand.Rand, n int, swap func(i, j int)) {
 			for i := n - 1; i > 0; i-- {
 				swap(i, verif_choose("shuffle", i+1))
@@ -116,10 +128,22 @@ func verif_harness_C18_dns_caching_dial() {
 
 	// "picked at random": every resolved address must be diallable on the
 	// first attempt of some call (an existential goal, one per address)
-	for _, r := range resolved {
-		verif_expect_cover(cfg + "dialled:" + r)
+	if !refresh {
+		for _, r := range resolved {
+			verif_expect_cover(cfg + "dialled:" + r)
+		}
 	}
 	for d := 0; d < dials; d++ {
+		if refresh && d == 1 {
+			// the new record set: as many addresses, none of the old ones
+			fresh := map[string]string{"10.0.0.1": "10.0.9.1", "10.0.0.2": "10.0.9.2", "fd00::1": "fd09::1", "fd00::2": "fd09::2"}
+			next := make([]string, len(resolved))
+			for i, r := range resolved {
+				next[i] = fresh[r]
+			}
+			resolved = next
+			cache = append([]string(nil), next...)
+		}
 		cur = nil
 		_, _ = tr.DialContext(context.Background(), "tcp", "svc.example:80")
 		dialled = append(dialled, cur)
